@@ -62,6 +62,10 @@ CHECKS = {
    text="Coq theorem for EVERY buffer half size n>=1 and EVERY NUL-free file: reading sequentially through the two-half reader (model of moorara/algo lexer/input, copied in templates/input.go.tmpl) returns exactly the file's bytes and then end of input — independent of boundaries and length (read_all_correct, with load/sentinel/sticky-error semantics). The model is tied to the real reader by replaying random files and Next/Retract scripts at half sizes 1..6. Known finding D14 (Retract at a half boundary reloads the half: input skipped, or an endless Lexeme loop) is a kernel-evaluated witness theorem and paddings are classified by the exact predicate 'a lexeme's look-ahead byte is the last byte of a half'. Layout invariance (separators, comments, final newline) and the padding sweep (every alignment in the listed ranges against both boundaries; all of 0..2*4096+64 in the thorough tier) compare the derived specification of the real pipeline; the scanner model's token signature of each layout pair is evaluated by the kernel.",
    note=TB + "Single-byte characters only in the reader model; Retract is modelled and witnessed but the refinement under the scanner protocol is not proved (partial); layout invariance of the token stream is per layout, not a universal theorem.",
    tech="Coq proof (read_all_correct, all n and files) + witness theorems for D14/D13 + differential sweeps (reader scripts, layouts, paddings)"),
+ "C08": dict(cat="translation_validation",
+   text="Per emitted package (generated by the real CLI for specifications whose automata contain quotes, backslashes, control and non-ASCII characters, keyword prefix chains, terminals owning no state, plus random ones): the Go front end (go vet, standard library only) type-checks the six files, and advanceDFA/evalDFA are READ BACK from the emitted lexer.go by the translator and compared, by the kernel, with the automaton and terminal map dumped from Spec.DFA(). Universal Coq theorem: when the comparison evaluates to true the emitted transition function equals the automaton's for EVERY state and EVERY code point and the emitted table equals the terminal map for EVERY state (nothing elsewhere).",
+   note=TB + "Validity of Go source is decided by the Go front end (trusted); the renderer (templates, formatRunes) is not modelled: its output is validated per package. D8 (no emitted package ever compiled) was found by this check and fixed.",
+   tech="translation validation: emitted source read back by the translator, extensional comparison certified in Coq (all states x all code points); Go front end for validity"),
 }
 
 ORDER = sorted(CHECKS)
